@@ -103,6 +103,7 @@ type fld struct {
 	actAt   []int  // for each act: index in path of the group it activates
 	isGroup bool   // a group that is a union member (its setter only writes the discriminant)
 	pdflt   []byte // default of a Text / Data field
+	sdflt   []byte // default of a struct-typed (target T: its x, y) or List(UInt16)-typed (its elements) field; nil = no default
 }
 
 func (f fld) name() string { return strings.Join(f.path, ".") }
@@ -210,6 +211,10 @@ func enumerate(id uint64, path []string, acts []act, actAt []int) []fld {
 					d.pdflt, _ = dv.TextBytes()
 				case d.kind == schema.Type_Which_data && dv.Which() == schema.Value_Which_data:
 					d.pdflt, _ = dv.Data()
+				case d.kind == schema.Type_Which_structType && dv.Which() == schema.Value_Which_structValue:
+					d.sdflt = summaryOfPtr(dv.StructValue())
+				case d.kind == schema.Type_Which_list && dv.Which() == schema.Value_Which_list:
+					d.sdflt = summaryOfPtr(dv.List())
 				}
 			}
 			if d.bits == 0 && !d.ptr && !d.hasdisc {
@@ -229,6 +234,92 @@ func enumerate(id uint64, path []string, acts []act, actAt []int) []fld {
 		}
 	}
 	return fs
+}
+
+// summaryOfPtr renders a struct default (first four data bytes: T.x, pad, T.y as stored) or a List(UInt16) default
+// (its elements) - read from the schema node, not from the generated code
+func summaryOfPtr(p capnp.Ptr, err error) []byte {
+	if err != nil || !p.IsValid() {
+		return nil
+	}
+	if st := p.Struct(); st.IsValid() {
+		return []byte{st.Uint8(0), st.Uint8(2), st.Uint8(3)}
+	}
+	if l := p.List(); l.IsValid() {
+		out := []byte{}
+		ul := capnp.UInt16List{List: l}
+		for i := 0; i < ul.Len() && i < 8; i++ {
+			out = append(out, byte(ul.At(i)), byte(ul.At(i)>>8))
+		}
+		return out
+	}
+	return nil
+}
+
+// summaryOfResult renders what a generated getter of a struct / List(UInt16) field returned, the same way
+func summaryOfResult(v reflect.Value) ([]byte, bool) {
+	if sf := v.FieldByName("Struct"); sf.IsValid() {
+		st, ok := sf.Interface().(capnp.Struct)
+		if !ok {
+			return nil, false
+		}
+		if !st.IsValid() {
+			return []byte{}, true
+		}
+		return []byte{st.Uint8(0), st.Uint8(2), st.Uint8(3)}, true
+	}
+	if lf := v.FieldByName("List"); lf.IsValid() {
+		l, ok := lf.Interface().(capnp.List)
+		if !ok {
+			return nil, false
+		}
+		out := []byte{}
+		if !l.IsValid() {
+			return out, true
+		}
+		ul := capnp.UInt16List{List: l}
+		for i := 0; i < ul.Len() && i < 8; i++ {
+			out = append(out, byte(ul.At(i)), byte(ul.At(i)>>8))
+		}
+		return out, true
+	}
+	return nil, false
+}
+
+// genPtrDefault: a null slot of a struct / list field with a default reads as that default (the default of this very field,
+// also when another member of the union shares the slot)
+func genPtrDefault(t typ, f fld) {
+	if f.sdflt == nil {
+		return
+	}
+	last := f.path[len(f.path)-1]
+	guarded("gen", t, f, func() {
+		_, seg, _ := capnp.NewMessage(capnp.SingleSegment(nil))
+		s, rv := t.mk(seg)
+		cur, ok := descend(t, f, s, rv, false)
+		if !ok {
+			return
+		}
+		if f.hasdisc {
+			s.SetUint16(capnp.DataOffset(2*f.doff), uint16(f.dval))
+		}
+		getter := cur.MethodByName(title(last))
+		if !getter.IsValid() || getter.Type().NumOut() != 2 {
+			return
+		}
+		r := getter.Call(nil)
+		if err, _ := r[1].Interface().(error); err != nil {
+			failure("gen", t, f, "error", err)
+			return
+		}
+		got, ok := summaryOfResult(r[0])
+		if !ok {
+			return
+		}
+		e := f.base("gen", t)
+		e["k"], e["got"], e["dflt"] = "pdef", ints(got), ints(f.sdflt)
+		emit(e)
+	})
 }
 
 // every union of a type: discriminant offsets (in 16-bit units)
@@ -463,6 +554,7 @@ func doGen() {
 			if f.ptr {
 				genPtr(t, f)
 				genPtrValues(t, f)
+				genPtrDefault(t, f)
 				continue
 			}
 			for _, bg := range []byte{0x00, 0xff} {
@@ -873,6 +965,9 @@ func goTypeOf(t schema.Type, depth int) reflect.Type {
 		if st == nil {
 			return nil
 		}
+		if variant == "byvalue" {
+			return st
+		}
 		return reflect.PtrTo(st)
 	case schema.Type_Which_interface, schema.Type_Which_anyPointer, schema.Type_Which_void:
 		return nil
@@ -1031,7 +1126,7 @@ func setWhichOnPath(v reflect.Value, f fld) {
 }
 
 func doPogs() {
-	for _, v := range []string{"plain", "embed", "rename"} {
+	for _, v := range []string{"plain", "embed", "rename", "byvalue"} {
 		variant = v
 		doPogsVariant()
 	}
@@ -1055,6 +1150,7 @@ func doPogsVariant() {
 			f := f
 			if f.ptr {
 				pogsPtrValues(t, gt, f, who)
+				pogsPtrDefault(t, gt, f, who)
 			}
 			if f.ptr || f.isGroup || f.bits == 0 {
 				continue
@@ -1099,6 +1195,25 @@ func doPogsVariant() {
 					}
 					e["k"], e["before"], e["val"], e["after"], e["acts"] = "set", ints(before), ints(rawOf(arg, f.bits)), ints(dataOf(s)), a
 					emit(e)
+				})
+			}
+			// ---- Extract from a null struct: every field reads as its default
+			zeroPath := !f.hasdisc || f.dval == 0
+			for _, a := range f.acts {
+				if a.dval != 0 {
+					zeroPath = false
+				}
+			}
+			if zeroPath {
+				guarded(who("pogs-extract"), t, f, func() {
+					gv := reflect.New(gt)
+					if err := pogs.Extract(gv.Interface(), t.id, capnp.Struct{}); err != nil {
+						failure(who("pogs-extract"), t, f, "error", err)
+						return
+					}
+					g := f.base(who("pogs-extract"), t)
+					g["k"], g["before"], g["val"] = "get", []int{}, ints(rawOf(goField(gv.Elem(), f.path), f.bits))
+					emit(g)
 				})
 			}
 			// ---- Extract from raw bytes built by other means
@@ -1150,8 +1265,81 @@ func doPogsVariant() {
 				})
 			}
 		}
-		pogsRoundTrip(t, gt, fs)
+		if variant != "byvalue" {
+			// (structs held by value in inactive union members do not round-trip as such: the variant exists for the defaults of null structs)
+			pogsRoundTrip(t, gt, fs)
+		}
 	}
+}
+
+// pogsPtrDefault: Extract of a message whose struct / List(UInt16) slot is null shows the field's default; a struct held by
+// value (variant "byvalue") shows the defaults of the target type's fields even when the field itself has no default
+func pogsPtrDefault(t typ, gt reflect.Type, f fld, who func(string) string) {
+	if f.kind != schema.Type_Which_structType && f.kind != schema.Type_Which_list {
+		return
+	}
+	if !goField(reflect.New(gt).Elem(), f.path).IsValid() {
+		return
+	}
+	guarded(who("pogs-extract"), t, f, func() {
+		_, seg, _ := capnp.NewMessage(capnp.SingleSegment(nil))
+		s, _ := t.mk(seg)
+		for _, a := range f.acts {
+			s.SetUint16(capnp.DataOffset(2*a.doff), uint16(a.dval))
+		}
+		if f.hasdisc {
+			s.SetUint16(capnp.DataOffset(2*f.doff), uint16(f.dval))
+		}
+		gv := reflect.New(gt)
+		if err := pogs.Extract(gv.Interface(), t.id, s); err != nil {
+			failure(who("pogs-extract"), t, f, "error", err)
+			return
+		}
+		fv := goField(gv.Elem(), f.path)
+		var got, want []byte
+		switch {
+		case f.kind == schema.Type_Which_list:
+			if fv.Kind() != reflect.Slice || fv.Type().Elem().Kind() != reflect.Uint16 {
+				return
+			}
+			got = []byte{}
+			for i := 0; i < fv.Len() && i < 8; i++ {
+				got = append(got, byte(fv.Index(i).Uint()), byte(fv.Index(i).Uint()>>8))
+			}
+			want = f.sdflt
+			if want == nil {
+				want = []byte{}
+			}
+		default:
+			tid := f.typ.StructType().TypeId()
+			tn := findNode(tid)
+			if dn, _ := tn.DisplayName(); !strings.HasSuffix(dn, ":T") {
+				return // only the generated target type T(x, y = 300) is summarised
+			}
+			if fv.Kind() == reflect.Ptr {
+				if fv.IsNil() {
+					if f.sdflt != nil {
+						failure(who("pogs-extract"), t, f, "readback", "a null struct slot with a default extracted as nil")
+					}
+					return
+				}
+				fv = fv.Elem()
+			}
+			x, y := fv.FieldByName(gname("x")), fv.FieldByName(gname("y"))
+			if !x.IsValid() || !y.IsValid() {
+				return
+			}
+			// the Go value shows field values; stored bytes are value XOR field default (y: 300 = 44, 1)
+			got = []byte{byte(x.Uint()), byte(y.Uint()) ^ 44, byte(y.Uint()>>8) ^ 1}
+			want = f.sdflt
+			if want == nil {
+				want = []byte{0, 0, 0} // null struct: every field of T at its default
+			}
+		}
+		e := f.base(who("pogs-extract"), t)
+		e["k"], e["got"], e["dflt"] = "pdef", ints(got), ints(want)
+		emit(e)
+	})
 }
 
 // populate fills pointer-typed Go fields with non-empty values, primitive ones with a pattern
